@@ -1,7 +1,7 @@
 //! C02 — a published message reaches the wire intact and correctly framed.
 use super::*;
 use crate::gen::*;
-use crate::oracles::publish_oracle;
+use crate::oracles::{publish_oracle, publish_oracle_ext};
 
 pub struct C02;
 
@@ -10,7 +10,7 @@ impl Scenario for C02 {
         "C02"
     }
     fn rule(&self) -> String {
-        "Seeded sessions dominated by publishes: body lengths biased to {0,1,P-1,P,P+1,2P-1,2P,2P+1,3P,3P+1} (P = negotiated frame_max-8) plus random, 9 client/server frame_max pairs (incl. 0=unlimited, 4096, 4097, 8192, 131072), 5 property sets incl. all 14 properties and nested tables, names 1..255 bytes, all flag combinations, 1-3 threads and channels with other operations interleaved, write fragmentation on. Oracle = independent decoder at the peer. Non-trivial = the run checked >=1 publish whose body length sits on a splitting boundary (0, 1, multiple of P, or > P); distinct = hash of (frame_max, multiset of (body length, property set, flags)). The schedule dimension only adds fragmentation and a second interleaving channel here. A third of the sessions also attach 1-3 consumers to the publishing channel which the server cancels (nowait=false) at random times while publishes are under way, so that frames the I/O thread writes on its own account (Basic.CancelOk) compete with the publish's frames for the channel's sequence.".to_string()
+        "Seeded sessions dominated by publishes: body lengths biased to {0,1,P-1,P,P+1,2P-1,2P,2P+1,3P,3P+1} (P = negotiated frame_max-8) plus random, 9 client/server frame_max pairs (incl. 0=unlimited, 4096, 4097, 8192, 131072), 5 property sets incl. all 14 properties and nested tables, names 1..255 bytes, all flag combinations, 1-3 threads and channels with other operations interleaved, write fragmentation on. Oracle = independent decoder at the peer. Non-trivial = the run checked >=1 publish whose body length sits on a splitting boundary (0, 1, multiple of P, or > P); distinct = hash of (frame_max, multiset of (body length, property set, flags)). The schedule dimension only adds fragmentation and a second interleaving channel here. A third of the sessions also attach 1-3 consumers to the publishing channel which the server cancels (nowait=false) at random times while publishes are under way, so that frames the I/O thread writes on its own account (Basic.CancelOk) compete with the publish's frames for the channel's sequence. One session in six instead receives a Channel.Flow (a method the client does not implement) on the publishing channel as the server's reaction to a Basic.Publish method frame whose content is still on its way: the connection may end with the client's exception, but no frame of the client's own may land inside a publish.".to_string()
     }
     fn assumptions(&self) -> Vec<String> {
         vec!["amq-protocol codec trusted at the peer".into(), "frame_max as negotiated by the simulated broker's Tune and the client option".into()]
@@ -61,9 +61,31 @@ impl Scenario for C02 {
             gen.broker.deliveries_min = 0;
             gen.broker.deliveries_max = 1;
         }
+        // one session in six: the server sends a method the client does not implement (Channel.Flow) on the
+        // publishing channel while a publish's frames are on their way to the I/O thread.  Whatever the client
+        // makes of it (amiquip answers with a connection exception), nothing it writes on that channel on its
+        // own account may land inside the publish.
+        let mut stray_flow = 0u64;
+        if server_cancels == 0 && cs.choose("c02_stray_flow", 6) == 0 {
+            let mut next_id = 1u16;
+            for t in gen.plan.threads.iter() {
+                let base = next_id;
+                next_id += t.chan_ids.len() as u16;
+                let publishes = t.ops.iter().filter(|(s, o)| *s == 0 && matches!(o, crate::client::Op::Publish { .. })).count() as u32;
+                if publishes > 0 && cs.choose("c02_flow_here", 2) == 0 {
+                    let nth = cs.choose("c02_flow_nth", publishes);
+                    let mut f = Vec::new();
+                    crate::wire::method(&mut f, base, &amq_protocol::protocol::AMQPClass::Channel(amq_protocol::protocol::channel::AMQPMethod::Flow(amq_protocol::protocol::channel::Flow { active: cs.choose("c02_flow_active", 2) == 1 })));
+                    gen.broker.script.push((crate::broker::Trigger::OnPublishMethod { ch: base, nth }, crate::broker::Action::Raw { ch: base, frames: vec![f] }));
+                    stray_flow += 1;
+                    break;
+                }
+            }
+        }
         let (res, world) = run_generated(&gen, cs, text, |_| {});
         let mut rep = CaseReport::default();
         rep.count("c02.server_cancels_scripted", server_cancels);
+        rep.count("c02.stray_channel_flow_scripted", stray_flow);
         fill_common(&mut rep, &res, &world);
         rep.sample = plan_summary(&gen);
         if let Some((sig, detail)) = hang_sig(&res.run.outcome) {
@@ -83,7 +105,7 @@ impl Scenario for C02 {
             return rep;
         }
         let n = world.net.lock().unwrap();
-        publish_oracle(&mut rep, &n.c2s, &res.hist, gen.frame_max);
+        publish_oracle_ext(&mut rep, &n.c2s, &res.hist, gen.frame_max, stray_flow > 0);
         rep.nontrivial = rep.counters.get("c02.boundary_bodies").copied().unwrap_or(0) > 0;
         let mut h = gen.frame_max as u64;
         for o in &res.hist.ops {
